@@ -293,3 +293,47 @@ def run(ctx: Context) -> None:
     clause_a(ctx)
     clause_b(ctx)
     clause_c(ctx)
+    clause_d(ctx)
+
+
+def clause_d(ctx: Context) -> None:
+    """The attenuator is implemented as a Gaussian channel (X, Y of `Attenuator._get_computed_params`, used by the Gaussian
+    simulator) and as a Kraus sum on the Fock simulators.  Necessary for them to be the same channel: first moments are scaled by the
+    same factor - the Fock weight of the coherence |1><0| (n, m, k = 1, 0, 0) equals the diagonal entry of X."""
+    ctx.rule("C01d", "the Fock attenuator's weight for the coherence |1><0| equals the factor X by which the Gaussian attenuator scales the mean")
+    import sympy as sp
+    from .C08 import attenuator_weight
+    from ..algebra import SymEval, to_matrix
+    idx = get_index(ctx.repo)
+    reg = get_registry(idx)
+    att, upd, w, n_, m_, k_, th = attenuator_weight(idx)
+    w10 = sp.simplify(w(upd.value, False).subs({n_: 1, m_: 0, k_: 0}))
+    cls = idx.find_class("piquasso.instructions.channels", "Attenuator")
+    gcp = cls.methods.get("_get_computed_params")
+    if gcp is None:
+        raise AnalysisError("anchor vanished: Attenuator._get_computed_params")
+    theta = sp.Symbol("theta", real=True)
+    ev = SymEval(gcp, {"theta": theta, "mean_thermal_excitation": sp.Symbol("N", nonnegative=True)}, env={"np": "<np>"})
+    X = None
+    for s_ in gcp.node.body:
+        if isinstance(s_, ast.Assign) and len(s_.targets) == 1 and isinstance(s_.targets[0], ast.Name):
+            try:
+                v = ev.ev(s_.value)
+                ev.env[s_.targets[0].id] = v
+            except Exception:  # noqa: BLE001
+                continue
+        if isinstance(s_, ast.Return) and isinstance(s_.value, ast.Call):
+            for k in s_.value.keywords:
+                if k.arg == "X":
+                    X = ev.ev(k.value)
+    if X is None:
+        ctx.error("C01d: cannot read X of Attenuator._get_computed_params (undecided)")
+        return
+    x00 = to_matrix(X)[0, 0]
+    ok = sp.simplify((w10.subs({th: theta}) - x00).rewrite(sp.exp)) == 0
+    key = f"{att.qualname}|first-moment factor equals Attenuator X"
+    ctx.obligation("C01d", key, ok, f"{ctx.relpath(att.file)}:{upd.lineno}", fock=str(w10), gaussian=str(x00))
+    if not ok:
+        ctx.violation("C01d", key, att.file, upd.lineno,
+                      f"the Fock attenuator scales the coherence |1><0| (and with it <a>) by {w10}, the Gaussian attenuator scales the mean by {x00}: "
+                      f"the two simulators implement different channels (e.g. for cos(theta) < 0)", str(w10))
